@@ -97,7 +97,7 @@ Close(o) ==
 
 Renumber(o) ==      \* fd_renumber(from = o.fd, to = o.n)
   LET from == o.fd  to == o.n IN
-  IF from = Preopen \/ to = Preopen THEN Same(o, {"ENOTSUP", "EBADF"}, <<>>)
+  IF from = Preopen \/ to = Preopen \/ to \in 0..2 THEN Same(o, {"ENOTSUP", "EBADF"}, <<>>)       \* refused: NOTHING changes, the source stays open
   ELSE IF ~IsOpen(from) THEN Same(o, {"EBADF"}, <<>>)
   ELSE IF from = to THEN Same(o, {"ok"}, <<>>)                        \* onto itself: a no-op
   ELSE Upd(o, <<>>, names, inodes, [x \in (DOMAIN fds \ {from}) \cup {to} |-> IF x = to THEN fds[from] ELSE fds[x]])
